@@ -92,6 +92,15 @@ class CubeSys:
         self.gen = ScramblingGenerator(cube_size=n, num_scrambles_on_reset=scr)
         self.env = RubiksCube(generator=self.gen, time_limit=self.tl)
         self.step = jax.jit(self.env.step)
+        # the same cube under a user-written reward function (a constant shaping reward): whether an episode is over must
+        # depend on the cube - the solved test - and not on what the reward function happens to pay
+        from jumanji.environments.logic.rubiks_cube.reward import RewardFn
+
+        class ConstantReward(RewardFn):
+            def __call__(self, state: Any) -> Any:
+                return jax.numpy.array(0.25, float)
+
+        self.shaped_step = jax.jit(RubiksCube(generator=self.gen, time_limit=self.tl, reward_fn=ConstantReward()).step)
         self.name = "RubiksCube"
         idx = np.arange(6 * n * n).reshape(6, n, n)
         self.L1 = (idx // 100).astype(np.int8)
@@ -188,6 +197,11 @@ class CubeRun:
                                   f"but model solved={ms}")
                     if ms:
                         self.stats.probe("solved_state_visited")
+                    _, sts = cs.shaped_step(states[k], jnp.asarray(a, dtype=jnp.int32))
+                    if (int(np.asarray(sts.step_type)) == 2) != (ms or sc >= cs.tl):
+                        self.fail("goal_test", "done_depends_on_reward_function", f"{where}: action {a}: under a constant shaping reward "
+                                  f"LAST={int(np.asarray(sts.step_type)) == 2} but model solved={ms}")
+                    self.stats.check("shaped_reward_done_tests")
                 states[k], model[k] = ns, want
             self.stats.steps += 1
             self.stats.check("moves_compared")
